@@ -17,6 +17,7 @@ class TracedCondition(_real_threading.Condition):
   def __init__(self, lock=None):
     super().__init__(lock)
     self.waiting = set()       # thread idents currently inside wait(); mutated with the lock held
+    self.pending = 0           # wake-ups handed out by notify() whose waiter has not re-acquired the lock yet (lock held)
     self.wait_calls = 0
     self.notify_calls = 0
     REGISTRY.conditions.append(self)
@@ -25,13 +26,21 @@ class TracedCondition(_real_threading.Condition):
     me = _real_threading.get_ident()
     self.waiting.add(me)
     self.wait_calls += 1
+    got = True
     try:
-      return super().wait(timeout)
+      got = super().wait(timeout)
+      return got
     finally:
+      # the lock is held again here
       self.waiting.discard(me)
+      if got and self.pending > 0:
+        self.pending -= 1
 
   def notify(self, n=1):
     self.notify_calls += 1
+    # a notified waiter stays in `waiting` until it gets the lock back: count it, so that an observer holding the lock
+    # can tell "everybody waits and nobody has been woken" (deadlock) from "somebody was woken but has not run yet"
+    self.pending += min(n, len(self._waiters))
     return super().notify(n)
 
   def owned_by_me(self):
